@@ -35,6 +35,9 @@ Judge == /\ verdict = "pending"
 Next == Judge
 Spec == Init /\ [][Next]_vars
 
-Report == verdict = "violated" => PrintT(<<"REJECT", i>>)
+(* which half of Clean fails: a raw < > " ' , or only an ampersand that begins no escape sequence *)
+RawSpecial(cs) == \E j \in 1..Len(cs) : cs[j] \in (Specials \ {"&"})
+Why(r) == IF r.k \in {"safe", "out"} THEN (IF RawSpecial(r.cs) THEN "raw" ELSE "amp") ELSE r.k
+Report == verdict = "violated" => PrintT(<<"REJECT", i, Why(Obs[i])>>)
 Counted == verdict = "holds" => PrintT(<<"ACCEPT", i>>)
 =============================================================================
